@@ -306,7 +306,11 @@ Fixpoint first_div_dirm (d : dst) (ops : list op) (obs : list out) (i : nat) : o
 From Apko Require Export Model.TarEntry.
 
 Definition top_name (o : top) : string :=
-  match o with TOp o => op_name o | TWriteHeader _ _ _ => "WriteHeader" end.
+  match o with
+  | TOp o => op_name o | TWriteHeader _ _ _ => "WriteHeader" | TWriteHeaderDir _ _ _ => "WriteHeaderDir"
+  | TWriteHeaderSym _ _ _ => "WriteHeaderSym" | TWriteHeaderLink _ _ => "WriteHeaderLink"
+  end.
+Definition inst_ok (r : out) : out := match r with ONum 1%Z => OOk | x => x end.
 
 Definition on_rc_handle (ts : tst) (o : op) : bool :=
   match o with
@@ -337,6 +341,32 @@ Fixpoint check_tsteps (ts : tst) (ops : list top) (obs : list out) : list string
                 else [String.append "viol:" (viol_tag TarFS s (WriteFile p c perm) sr r')]
             | _ => []
             end
+        | TWriteHeaderLink old new =>
+            (* a hard link header is the reference's Link *)
+            let '(s1', sr) := spec_step s (Link old new) in
+            if out_match sr (inst_ok r) && st_eqb (flat ts1) s1' then []
+            else [String.append "viol:" (viol_tag TarFS s (Link old new) sr (inst_ok r))]
+        | TWriteHeaderSym p tgt _ =>
+            (* a link header under a fresh name is the reference's Symlink; on an existing name: package
+               conflict handling, compared with the model only *)
+            match s_leaf (heap s) p with
+            | inl (_, _, None) =>
+                let '(s1', sr) := spec_step s (Symlink tgt p) in
+                if out_match sr (inst_ok r) && st_eqb (flat ts1) s1' then []
+                else [String.append "viol:" (viol_tag TarFS s (Symlink tgt p) sr (inst_ok r))]
+            | _ => []
+            end
+        | TWriteHeaderDir p perm t =>
+            (* a directory header is the reference's mkdir -p followed by its Chtimes *)
+            let '(s1', sr) := spec_step s (MkdirAll p perm) in
+            if is_failure sr then
+              (if out_match sr r && st_eqb (flat ts1) s1' then [] else [String.append "viol:" (viol_tag TarFS s (MkdirAll p perm) sr r)])
+            else
+              let '(s2', sr2) := spec_step s1' (Chtimes p t) in
+              if out_match sr2 (inst_ok r) && st_eqb (flat ts1) s2' then []
+              else if negb (st_eqb (fst (model_step TarFS s (MkdirAll p perm))) s1')
+                   then [String.append "viol:" (viol_tag TarFS s (MkdirAll p perm) sr (inst_ok r))]
+                   else [String.append "viol:" (viol_tag TarFS s1' (Chtimes p t) sr2 (inst_ok r))]
         end in
       if out_match mr r then vt ++ check_tsteps ts1 ops' obs'
       else vt ++ [String.append "mismatch:tarentry-" (top_name o)]
